@@ -1256,6 +1256,10 @@ func (g *FuncGen) countingLoop(x *ast.ForStmt) (types.Object, ast.Expr) {
 // iteration in which a file-system modification fails must leave the function with an error, not go round again.
 // Assumed at the head after the havoc, checked on the back edge.
 func (g *FuncGen) ioLoopAssume(head *State) {
+	if _, ok := head.heap["$rdfail"]; ok {
+		// a read fault is an I/O failure (invariant of the two flags, kept by every primitive and every call)
+		g.assume(head, fmt.Sprintf("(=> %s %s)", g.ghostGet(head, "$rdfail"), g.ghostGet(head, "$iofail")))
+	}
 	if len(g.inlineStack) > 0 || !ioReporting(g.F) || g.entry == nil {
 		return
 	}
